@@ -12,6 +12,8 @@ func extraEngineFor(prop string, t *testing.T) Engine {
 		return chaosEngine{t}
 	case "C11":
 		return multiEngine{engines: map[string]Engine{"scan": scanEngine{t}, "seq": seqEngine{}}, order: []string{"scan", "seq"}, weights: []int{3, 1}}
+	case "C15":
+		return spaceEngine{}
 	case "C12":
 		return backupEngine{t}
 	}
